@@ -333,9 +333,22 @@ def rule_misc(fx, rep):
             continue
         rep.fn(path)
 
-        def transfer(I, fr, t, c, pth):
+        ncomp_ = ncomp(fx, ty)
+        rsv = Resolver(b)
+
+        def transfer(I, fr, t, c, pth, rsv=rsv):
             if c.get('trait') == FIELD and c.get('name') == 'inverse':
                 fr.storev(t['dest'], exp.Opt(None, exp.TOP, ('inverse', t['span'])))
+                return True
+            if c.get('trait') == FIELD and c.get('name') == 'is_zero':
+                ref = rsv.operand_referent(t['args'][0])
+                i = comp_of(ref, 1)
+                whole = ref is not None and ref[0] == 'place' and ref[1]['l'] == 1 and ref[1]['p'] == [['deref']]
+                from facts import op_place
+                p0 = op_place(t['args'][0])
+                if p0 is not None and not p0['p'] and p0['l'] == 1:
+                    whole = True
+                fr.storev(t['dest'], ('bool', ('zero-test', 'self' if whole else i)))
                 return True
             if c['def'].startswith('std::option::Option::<T>::map'):
                 v = fr.operand(t['args'][0])
@@ -356,6 +369,17 @@ def rule_misc(fx, rep):
                 # explicit Some/None on a forked path
                 labs = [l for l in pth.labels if isinstance(l[0], tuple) and l[0][0] == 'inverse']
                 if isinstance(ret, exp.Opt) and ret.tag in ('some', 'none') and len(labs) == 1 and ((labs[0][1] == 1) == (ret.tag == 'some')):
+                    continue
+                # an explicit zero guard: None under a condition that says the whole element is zero
+                zt = {}
+                for lab, v in pth.labels:
+                    x, neg = lab, False
+                    while isinstance(x, tuple) and x and x[0] == 'not':
+                        neg = not neg
+                        x = x[1]
+                    if isinstance(x, tuple) and x and x[0] == 'zero-test':
+                        zt[x[1]] = ((v != 0) != neg)
+                if isinstance(ret, exp.Opt) and ret.tag == 'none' and (zt.get('self') is True or all(zt.get(i) is True for i in range(ncomp_))):
                     continue
                 ok = False
                 why = 'a path returns %r under %r: failure is not tied to the base-field inversion' % (ret, pth.labels)
